@@ -74,8 +74,24 @@ func (bb *DefaultBallotBroadcaster) set(bl base.Ballot) error {
 		return nil
 	}
 
-	if _, err := bb.pool.SetBallot(bl); err != nil {
+	switch isset, err := bb.pool.SetBallot(bl); {
+	case err != nil:
 		return errors.WithMessage(err, "set ballot to pool")
+	case isset:
+		return nil
+	}
+
+	// NOTE the ballot of local for the stage point is already set; the same
+	// one can be broadcasted again, but not another one.
+	switch stored, found, err := bb.pool.Ballot(
+		bl.Point().Point,
+		bl.Point().Stage(),
+		isaac.IsSuffrageConfirmBallotFact(bl.SignFact().Fact()),
+	); {
+	case err != nil:
+		return errors.WithMessage(err, "get ballot from pool")
+	case found && !stored.SignFact().Fact().Hash().Equal(bl.SignFact().Fact().Hash()):
+		return errors.Errorf("another ballot of local already broadcasted for the same stage point")
 	}
 
 	return nil
